@@ -88,6 +88,8 @@ type RunOpts struct {
 	Env     []string // appended to the base environment
 	Timeout time.Duration
 	Stdin   string
+	// StdoutTo: a path opened for writing that takes the place of the captured stdout (e.g. /dev/full: every write fails)
+	StdoutTo string
 }
 
 // BaseEnv is the pinned environment for convergen runs inside scratch modules: GOFLAGS is empty so
@@ -119,6 +121,12 @@ func Run(prog string, o RunOpts) Result {
 	cmd.WaitDelay = 5 * time.Second
 	var so, se bytes.Buffer
 	cmd.Stdout, cmd.Stderr = &so, &se
+	if o.StdoutTo != "" {
+		if f, err := os.OpenFile(o.StdoutTo, os.O_WRONLY, 0); err == nil {
+			defer f.Close()
+			cmd.Stdout = f
+		}
+	}
 	if o.Stdin != "" {
 		cmd.Stdin = strings.NewReader(o.Stdin)
 	}
